@@ -7,7 +7,7 @@ BASE_CMD = ("cd /repo && /venv/bin/python -m pytest -ra -q -p no:cacheprovider -
 TRUST = ("Trusted: CPython, numpy, the reference model in pmc/ref.py (exact rationals, self-tested against the "
          "documentation's worked examples), the enumerators' bounds as stated in the evidence file.")
 CFG = (" Also run at the quick depth in child processes under other documented configurations of default_solid_density / "
-       "default_enzyme_density ({inf, inf}: solids and enzymes without volume; {2.165, 1.35}): one per quick run, both per thorough run.")
+       "default_enzyme_density ({inf, inf}: solids and enzymes without volume; {2.165, 1.35}): the first per quick run, both per thorough run.")
 CFG_T = (" The thorough tier also runs the quick depth in child processes under two other configurations of default_solid_density / "
          "default_enzyme_density ({inf, inf}, {2.165, 1.35}).")
 CHECKS = {
@@ -113,7 +113,7 @@ CHECKS = {
  'C10': dict(
     technique="explicit-state exploration with an observer monitor: every observer of every changed object compared with the exact-rational definition on every reached state",
     text="On every state of the full-menu BFS and the geometry/unit sweeps: stored volume vs contents, get_volume (7 units), get_concentration (6 substances x 26 unit spellings), "
-         "plate/slice get_volumes, get_moles, get_volume, get_substances."+CFG_T,
+         "plate/slice get_volumes, get_moles, get_volume, get_substances."+CFG,
     note="Volumes below ten internal resolutions are not judged per litre. " + TRUST,
     ref="DESIGN.md section 4 C10"),
  'C16': dict(
